@@ -531,6 +531,9 @@ CMD_SEQUENCES = [
     [('b_csv', ['init', '{budget}']), ('b_csv', ['up', '{cfg}', '--format', 'json']), ('b_none', ['init', '{budget}']), ('b_none', ['up', '{cfg}', '--format', 'json'])],
     [('b_views', ['up', '{cfg}', '--format', 'json']), ('b_views', ['diag', '{cfg}', '--format', 'json']), ('b_refund', ['up', '{cfg}', '--format', 'json']), ('b_views', ['up', '{cfg}', '--format', 'json'])],
     [('b_missing', ['up', '{cfg}', '--format', 'json']), ('b_rules', ['up', '{cfg}', '--format', 'json']), ('b_missing', ['explain', '{cfg}']), ('b_rules2', ['up', '{cfg}', '--format', 'json'])],
+    # from inside the budget directory: the folder-layout migration (`tally update`, peer down), then commands that must find ./tally/config
+    [('b_rules', ['up', '--format', 'json'], 'cwd'), ('b_rules', ['update', '-y'], 'cwd'), ('b_rules', ['up', '--format', 'json'], 'cwd'), ('b_rules', ['explain'], 'cwd')],
+    [('b_csv', ['update', '-y'], 'cwd'), ('b_csv', ['up', '--migrate', '--format', 'json'], 'cwd'), ('b_csv', ['up', '--format', 'json'], 'cwd'), ('b_views', ['up', '{cfg}', '--format', 'json'])],
 ]
 CMD_ARGV = [['up', '{cfg}', '--format', 'json'], ['up', '{cfg}', '--format', 'json', '-v'], ['up', '{cfg}', '--format', 'summary'],
             ['explain', '{cfg}'], ['explain', 'Netflix', '{cfg}'], ['explain', 'COFFEE SHOP', '{cfg}', '--amount', '4.5'],
@@ -607,8 +610,11 @@ def gen_seq_history(rng, i):
         for r, t in fs.items():
             files['%s/%s' % (b, r)] = t
     ops = [{'op': 'FILES', 'files': files}]
-    for b, argv in CMD_SEQUENCES[(i // 10) % len(CMD_SEQUENCES)]:
-        ops.append({'op': 'CMD', 'budget': b, 'argv': argv})
+    for step in CMD_SEQUENCES[(i // 10) % len(CMD_SEQUENCES)]:
+        op = {'op': 'CMD', 'budget': step[0], 'argv': step[1]}
+        if len(step) > 2:
+            op['cwd'] = True
+        ops.append(op)
     return ops
 
 
@@ -863,6 +869,14 @@ def do_op(st, op, ch, root):
             return _exc(e)
         st.rules, st.transforms = rules, transforms
         return ['loaded', _canon_rules(rules), _canon_val(transforms)]
+    if k == 'CMD' and op.get('cwd'):
+        # the command is started from inside the budget directory (config found from the working directory; `tally update` migrates ./config)
+        here = os.getcwd()
+        os.chdir(os.path.join(root, op['budget']))
+        try:
+            return run_main([a.replace('{cfg}', 'config').replace('{budget}', '.') for a in op['argv']], root)
+        finally:
+            os.chdir(here)
     if k == 'CMD':
         return run_main([a.replace('{cfg}', os.path.join(root, op['budget'], 'config')).replace('{budget}', os.path.join(root, op['budget']))
                          for a in op['argv']], root)
